@@ -42,7 +42,9 @@ class ShortLinkControl(BitsInterface):
             )
             self.crc_ok: bool = True
         else:
-            self.crc_ok: bool = CRC8.check(self.as_bits()[:28], ba2int(self.crc_8bit))
+            self.crc_ok: bool = CRC8.check(
+                self.as_bits()[:28], ba2int(self.crc_8bit[::-1])
+            )
 
     def __repr__(self) -> str:
         descr: str = f"[{self.slco}]"
